@@ -168,6 +168,7 @@ TWINS_DIR = {
 }
 N_SANITIZE = {"stem": "ptrace_dumper", "filter": "", "tiers": Q, "tests": {
     "bprime_sanitize_small_domain": H("B'", "PtraceDumper::sanitize_stack_copy", "17 boundary words ^2 x 3 tail lengths x 8 sp offsets x 2 mapping orders = 13 872 inputs"),
+    "bprime_sanitize_mapping_geometry": H("B'", "PtraceDumper::sanitize_stack_copy (geometry of the could-hit pre-filter)", "10 positions of one executable mapping relative to a 2 MiB bucket edge and a 4 GiB period edge (incl. straddling, exactly on, larger than a period) x 36 boundary/alias words ^2 = 12 960 inputs"),
     "c12_small_negative_integer_survives": H("B'", "PtraceDumper::sanitize_stack_copy", "words -5, -4096, 4096, -4097, 4097"),
     "c12_region_shorter_than_offset": H("B'", "PtraceDumper::sanitize_stack_copy", "(len, sp_offset) in {(12,10), (8,9), (0,1), (16,40)}"),
 }}
